@@ -60,9 +60,11 @@ theorem clientExec_refines (cfg : Cfg) (fuel : Nat) (h : Handle) (c : Call) (db 
   cases c with
   | suggest count worker alg => exact getSuggestions_refines cfg fuel h count (some worker) alg db
   | getSuggestions count alg => exact getSuggestions_refines cfg fuel h count none alg db
-  | addTrial params final =>
+  | addTrial params final inSpace =>
     simp only [clientExec]
-    split <;> rfl
+    split
+    · rfl
+    · split <;> rfl
   | _ => rfl
 
 /-- **client_refines_rpc, histories** -/
@@ -141,14 +143,16 @@ theorem clientExec_db (cfg : Cfg) (fuel : Nat) (h : Handle) (c : Call) {db : DB}
   cases c with
   | suggest count worker alg => exact hsug count (some worker) alg
   | getSuggestions count alg => exact hsug count none alg
-  | addTrial params final =>
+  | addTrial params final inSpace =>
     simp only [clientExec]
     have hro := getStudy_readonly cfg hi h.owner h.sid
     split
     · left; exact hro
-    · right
-      refine ⟨_, List.mem_cons_of_mem _ List.mem_cons_self, ?_⟩
-      simp only [hro]
+    · split
+      · left; exact hro
+      · right
+        refine ⟨_, List.mem_cons_of_mem _ List.mem_cons_self, ?_⟩
+        simp only [hro]
   | _ => exact Or.inr ⟨_, List.mem_cons_self, rfl⟩
 
 /-- **one client call evolves the stored data like one RPC**: the invariant is kept and every study's
